@@ -569,7 +569,6 @@ class McStateExtra(TlbScheme):
         validator_info = ValidatorInfo.deserialize(ref)
         prev_blocks = OldMcBlocksInfo.deserialize(ref)
         after_key_block = ref.load_bool()
-        ref.load_bits(65)  # TODO why ?
         last_key_block = ExtBlkRef.deserialize(ref) if ref.load_bit() else None
         block_create_stats = None
         if bin(flags)[-1] == '1':
